@@ -311,6 +311,28 @@ func c12JudgeRound(ctx *vfCtx, round c12Round, ri int, db *c12DBStub, stubs []*c
 		tag(r.Tag)
 	}
 
+	// the same call for a caller whose context has already ended, on a copy of the same world (database
+	// and fetcher scripts as they are now): whatever such a call reports, it cannot verify MORE than the
+	// call with a live context - a request comes out verified there only if it does here
+	var dead []VerifyJSONResult
+	var deadErr error
+	{
+		db2 := &c12DBStub{content: c12CopyMap(db.content), all: db.all, failFetch: db.failFetch, failStore: db.failStore}
+		kr2 := KeyRing{KeyDatabase: db2}
+		for _, st := range stubs {
+			kr2.KeyFetchers = append(kr2.KeyFetchers, &c12FetchStub{idx: st.idx, script: st.script, now: st.now})
+		}
+		reqs2 := make([]VerifyJSONRequest, len(reqs))
+		for i := range reqs {
+			reqs2[i] = reqs[i]
+			reqs2[i].Message = append([]byte(nil), reqs[i].Message...)
+		}
+		ended, cancel := context.WithCancel(c12QuietCtx)
+		cancel()
+		if vfCatch(ctx, "C12/ended-context", func() { dead, deadErr = kr2.VerifyJSONs(ended, reqs2) }) {
+			return false
+		}
+	}
 	var results []VerifyJSONResult
 	var err error
 	nowLo := time.Now().UnixMilli() - c12Slack
@@ -319,6 +341,15 @@ func c12JudgeRound(ctx *vfCtx, round c12Round, ri int, db *c12DBStub, stubs []*c
 		return false
 	}
 	nowHi := time.Now().UnixMilli() + c12Slack
+	if deadErr == nil && err == nil && len(dead) == len(results) {
+		for i := range results {
+			if dead[i].Error == nil && results[i].Error != nil {
+				ctx.Fail("C12/sound/verified-under-an-ended-context", "round %d request %d (%s): with an ended context the request comes out verified; with a live context, on the same database and fetchers, it fails: %v", ri, i, round.Requests[i].Server, results[i].Error)
+				return false
+			}
+		}
+		tag("ended-context-compared")
+	}
 	// the messages handed over are the caller's: they read as before
 	for i, r := range round.Requests {
 		if string(reqs[i].Message) != string(r.Message) {
